@@ -255,7 +255,7 @@ func RunG(s *scn.Scenario, opt Options) *Result {
 				w = x.wantFor(st)
 			}
 			t.want = append(t.want, w)
-			estimate += int64(w.Steps) + 4
+			estimate += (int64(w.Steps) + 4) * int64(st.Rep+1)
 		}
 		x.sim.tasks = append(x.sim.tasks, t)
 		g.inOp[i] = -1
@@ -750,7 +750,9 @@ func (x *exec) taskMain(t *task) {
 	<-t.wake
 	raceEnable()
 	for i, st := range t.ops {
-		x.taskOp(t, i, st)
+		for k := 0; k <= st.Rep && (k == 0 || len(t.viol) == 0); k++ {
+			x.taskOp(t, i, st)
+		}
 	}
 	t.env = nil
 	raceDisable()
